@@ -1703,13 +1703,18 @@ class HypervolumeFitnessEvaluator(FitnessEvaluator):
         a = solution1.normalized_objectives[d-1]
 
         if solution2 is None:
-            b = self.rho
+            b = None
         else:
             b = solution2.normalized_objectives[d-1]
 
         if solution1.problem.directions[d-1] == Direction.MAXIMIZE:
             a = 1.0 - a
-            b = 1.0 - b
+
+            if b is not None:
+                b = 1.0 - b
+
+        if b is None:
+            b = self.rho
 
         if d == 1:
             if a < b:
